@@ -13,7 +13,7 @@ import contextlib
 import random
 from typing import Any, Dict, Iterable, List, Optional
 
-from harness.core import Case, Check, Finding, REPO, err_name
+from harness.core import Case, Check, Finding, OUTSIDE, REPO, err_name
 from harness.props import c06 as G
 from harness.props import c07_translate as T
 
@@ -65,6 +65,28 @@ def strip_ns(t):
     # an empty text and no text are the same XML (`<Unicode/>`)
     return {'tag': t['tag'], 'attrs': sorted(t['attrs']), 'text': t['text'] or None,
             'children': [strip_ns(c) for c in t['children']]}
+
+
+def canon_tree(t):
+    """strip_ns, and the children of every element grouped by tag (stable: children with the SAME tag keep their
+    document order).  The statement asks for "a well-formed PcGts tree … in which every element appears only under
+    parents the PAGE structure rules allow and carries its id" and for the content that parses back; it does not fix
+    the position of, say, TextEquiv among the Word children of a TextLine, and the parser (xmltodict) reads children
+    by name.  The order of regions / lines / words among themselves — which the statement does fix ("same region
+    nesting", reading order) — is untouched."""
+    kids = sorted((canon_tree(c) for c in t['children']), key=lambda c: c['tag'])
+    return {'tag': t['tag'], 'attrs': sorted(t['attrs']), 'text': t['text'] or None, 'children': kids}
+
+
+def canon_keys(v):
+    """an xmltodict value in the wire form of _doc.real_todict ({'d': [[key, value], …]} for a dict): the keys of every
+    dict sorted.  Their order only reflects which differently-named child came first (children with one name are
+    collected in one list, in document order, whatever lies between them) — see canon_tree"""
+    if isinstance(v, dict) and set(v) == {'d'}:
+        return {'d': sorted(([k, canon_keys(x)] for k, x in v['d']), key=lambda kv: kv[0])}
+    if isinstance(v, list):
+        return [canon_keys(x) for x in v]
+    return v
 
 
 def all_elems(t, parent=None):
@@ -311,14 +333,19 @@ class C07(Check):
         'for scans holding table regions (outside the property; the guard of add_pagexml_coords fires for a table with coordinates); '
         'that the generated API documents\' custom attributes satisfy C11.EntryOK (sampled: the real parse_custom_attributes on the '
         'exported string is compared with the document). Outside the quantifier (statement lists lines/words text): region-level '
-        'text, xheight and a falsy orientation are not exported; table rows/cells are never exported.')
+        'text, xheight and a falsy orientation are not exported; table rows/cells are never exported. CORRESPONDENCE LEVEL: exported '
+        'trees and xmltodict values are compared up to the order of sibling elements with DIFFERENT tags (same-tag siblings in '
+        'order); an export / re-parse that raises is compared as raising-or-not; scans holding table regions are outside the '
+        'quantifier (recorded only); extra scan.metadata keys of the re-parsed scan are ignored.')
     assumptions = [
         'generated documents: every element has coordinates (mandatory in PAGE; the parser needs them on lines and words); text '
         'is non-empty XML-legal without leading/trailing whitespace (xmltodict strips it: known finding C01:text-edge-whitespace); '
         'an empty text and no text are identified (both are <Unicode/>); scans have an id and an image of positive width and height; '
         'custom attributes are typed the way the parser types them; missing custom attributes ≡ []; confidences compared numerically',
-        'abstract tree: local tag names (namespace checked separately on the real tree), attributes compared as a set, children in '
-        'document order; lxml keeps attribute / child insertion order; the serialised root carries xmlns, xmlns:xsi, '
+        'abstract tree: local tag names (namespace checked separately on the real tree), attributes compared as a set, children '
+        'with the same tag in document order, children with different tags in no particular order (canon_tree / canon_keys: the '
+        'statement does not fix it and the parser reads children by name; the model keeps the order the code writes today); lxml '
+        'keeps attribute / child insertion order; the serialised root carries xmlns, xmlns:xsi, '
         'xsi:schemaLocation in this order (docX; compared with xmltodict.parse of the real string on every case)',
         'str() of int/float/bool/None and of repr-literal floats mirrored by hand (pyStr)',
         'the parser is the C01 model (parseScan); its own tie to parser.py is C01\'s correspondence plus, here, the comparison of '
@@ -364,7 +391,8 @@ class C07(Check):
                         c['lines'] = []
                 s = Gen7(rng, False).scan()
                 s['tables'] = [t]
-                out.append(Case('export-table', {'spec': s, 'route': 'api'}, ['api', 'table']))
+                # ("all text-hierarchy documents …": a scan holding a table region is not one — mirrored, recorded only)
+                out.append(Case('export-table', {'spec': s, 'route': 'api'}, ['api', 'table', OUTSIDE]))
         return out
 
     # ---------------------------------------------------------------- implementation
@@ -442,13 +470,16 @@ class C07(Check):
             return None
         m = model_out[0]
         if case.kind == 'rules':
-            return None if m.get('ok') == out else f'impl={out} model={m}'
+            # a rule function that rejects a pair (unknown element name) is compared as raising-or-not
+            rz = lambda d: {k: ('raises' if isinstance(v, str) else v) for k, v in d.items()} if isinstance(d, dict) else d
+            return None if rz(m.get('ok')) == rz(out) else f'impl={out} model={m}'
         if 'export_err' in out:
-            return None if m == {'err': out['export_err']} else f'impl raises {out["export_err"]}, model {str(m)[:300]}'
+            # (no exception class is stated: an export that raises is compared as raising-or-not)
+            return None if 'err' in m else f'impl raises {out["export_err"]}, model {str(m)[:300]}'
         if 'ok' not in m:
             return f'impl exports, model {m}'
         mo = m['ok']
-        d = G._first_diff(strip_ns(out['tree']), strip_ns(mo['tree']))
+        d = G._first_diff(canon_tree(out['tree']), canon_tree(mo['tree']))
         if d is not None:
             return f'exported tree differs at {d}'
         if out['tree']['ns'] != mo['ns']:
@@ -460,18 +491,19 @@ class C07(Check):
             real = out['xmltodict']
             if 'ok' not in real:
                 return f'xmltodict.parse on the exported string: {real}'
-            d = D.first_diff(_canon_root(real['ok']), _canon_root(mo['dict']))
+            d = D.first_diff(canon_keys(_canon_root(real['ok'])), canon_keys(_canon_root(mo['dict'])))
             if d is not None:
                 return f'xmltodict.parse(exported string) differs from toDict of the model tree at {d}'
         mp = mo['parsed']
         if 'hull' not in mp:
             if 'reparse_err' in out:
-                if mp != {'err': out['reparse_err']}:
+                if 'err' not in mp:
                     return f'parse_pagexml_file raises {out["reparse_err"]}, model parser on the model tree: {str(mp)[:200]}'
             elif 'reparsed_dump' in out:
                 if 'ok' not in mp:
                     return f'parse_pagexml_file succeeds, model parser on the model tree: {mp}'
-                d = D.first_diff(out['reparsed_dump'], D.norm_scan(mp['ok']))
+                # (as in the C01 correspondence: extra scan.metadata keys ignored, a falsy reading order is one value)
+                d = D.scan_diff({'ok': out['reparsed_dump']}, {'ok': D.norm_scan(mp['ok'])})
                 if d is not None:
                     return f'parse_pagexml_file(exported string) differs from parseScan(toDict(model tree)) at {d}'
         # instances of the theorems: C07_export_tree (the export is the pure tree) and C07_roundtrip
